@@ -63,6 +63,17 @@ def multi_multiplier_specs():
     return out
 
 
+def small_jacobian_specs():
+    """Feasible convex QPs whose constraint row has a small coefficient: points with violation between local_infeas_tol and opt_tol
+    and tiny J^T c exist and must not be called infeasible."""
+    I, N = "inf", "-inf"
+    out = []
+    for x0 in ([0.5, 0.5 + 1e-6], [0.3, 0.7000004], [2.0, -3.0]):
+        out.append(raw(2, {"H": [[2.0, 0.0], [0.0, 1.0]], "g": [-1.0, 0.5]}, [{"a": [0.05, 0.05], "b": -0.05, "lb": 0.0, "ub": 0.0}],
+                       [N, N], [I, I], x0, f"small_jacobian|{x0}"))
+    return out
+
+
 def outside_start_specs():
     """Starts that violate the variable bounds (allowed input: the solver clips on the first step)."""
     I, N = "inf", "-inf"
